@@ -582,18 +582,27 @@ func c21Domain(env *vfEnv, h *c21History) (*vfDomain, map[int]vfAnswers) {
 	return d, expected
 }
 
-func c21Run(r *vlib.Run, env *vfEnv, h *c21History) {
+func c21Run(r *vlib.Run, env *vfEnv, h *c21History) { c21RunSlice(r, env, h, 0, 1) }
+
+// c21RunSlice checks the crash points n0+j, n0+j+k, n0+j+2k, ... of the log (j=0, k=1: all of them).
+func c21RunSlice(r *vlib.Run, env *vfEnv, h *c21History, j, k int) {
 	cfg := h.cfg
 
 	d, expected := c21Domain(env, h)
 
-	r.Add("logged_operations", int64(len(h.ops)-h.n0))
+	if j == 0 {
+		r.Add("logged_operations", int64(len(h.ops)-h.n0))
+	}
 
 	c21SelfCheckImager(h.ops, h.n0)
 
 	im := c21NewImager(h.ops)
 
 	for n := h.n0; n <= len(h.ops); n++ {
+		if (n-h.n0)%k != j {
+			continue
+		}
+
 		for _, torn := range []bool{false, true} {
 			if torn && (n == 0 || h.ops[n-1].Kind != "write") {
 				continue
